@@ -259,8 +259,11 @@ def circularize(IM, radial_correction_function, ref_angle=None):
         factor = radial_correction_function(ref_angle)
 
     # radial correction
-    Xactual = X * factor / radial_correction_function(theta)
-    Yactual = Y * factor / radial_correction_function(theta)
+    # (the scale is computed first, so that it is exactly 1 where the
+    # correction equals the reference value and such pixels are not moved)
+    scale = factor / radial_correction_function(theta)
+    Xactual = X * scale
+    Yactual = Y * scale
 
     # @DanHickstein magic
     # https://github.com/PyAbel/PyAbel/issues/186#issuecomment-275471271
